@@ -480,6 +480,13 @@ void run_C17(void) {
           if (!th && m > 256 && (ctr % 3)) continue;
           extract_case(m, avx, NR[ri], SX[si], 1, 0);
         }
+        // strides that are multiples of the row length (a column of a matrix of k reim vectors per row): sl = 2m*k,
+        // and the same in bytes / in complexes (classic unit mix-ups): 8*2m, 16*2m
+        if (m <= 1024 || th) {
+          static const uint64_t MULT[] = {2, 3, 4, 8, 16, 32};
+          for (size_t q = 0; q < ARRAY_LEN(MULT); q++)
+            if (NR[ri] <= 5) extract_case(m, avx, NR[ri], 2 * m * (MULT[q] - 1), 1, 2);
+        }
         if (th) extract_case(m, avx, NR[ri], m, 1, 1);
       }
     }
@@ -511,8 +518,9 @@ void run_C17(void) {
   // dot products: every length 0..64, 128, 1000
   for (int two = 0; two <= 1; two++)
     for (int avx = 0; avx <= 1; avx++)
-      for (uint64_t n = 0; n <= 66; n++) {
-        uint64_t nrows = n <= 64 ? n : (n == 65 ? 128 : 1000);
+      for (uint64_t n = 0; n <= 74; n++) {
+        static const uint64_t LONG[] = {128, 1000, 1023, 1024, 1025, 2047, 2048, 2049, 4096, 5000};
+        uint64_t nrows = n <= 64 ? n : LONG[n - 65];
         for (int fam = 0; fam < N_VFAM; fam++)
           for (unsigned rep = 0; rep < (th ? 40u : 3u); rep++) dot_case(two, avx, nrows, fam, rep);
       }
